@@ -152,6 +152,7 @@ def run(prog, tier, extra=None):
     R4 = res.rule("C11.decoders", "no decoder that can panic on input is reachable from the handlers", floor=15)
     R6 = res.rule("C11.sized-alloc", "capacities requested in handler-reachable bodies are constants or lengths of existing collections", floor=0)
     R7 = res.rule("C11.reject-leaves-pool", "the path that disposes of a refused block removes nothing from the transaction pool and releases no input reservation", floor=5)
+    R8 = res.rule("C11.fetch-quota", "every block request handed out per peer consumes one unit of that peer's quota: `batch_size - fetching_count` cannot underflow", floor=1)
     R5 = res.rule("C11.peer-indexing", "indexing into fields of peer-decoded structures is covered by a dominating length fact", floor=60)
 
     _r2_cov = {}
@@ -436,6 +437,46 @@ def run(prog, tier, extra=None):
                                     "%s, reachable from add_block_failure, removes from Mempool.%s: a block a peer made up (and the node refused) takes honest pooled "
                                     "transactions or their input reservations with it" % (p7.replace(CORE, "").replace("::{closure#0}", ""), fld), b7.loc(s7[1])))
     res.instance(R7, n7)
+    # `let mut allowed_quota = self.batch_size - fetching_count;` (BlockchainSyncState::get_blocks_to_fetch_per_peer) is an unchecked
+    # subtraction: it holds only while no more than batch_size entries of a peer are in state Fetching, i.e. while every transition to
+    # Fetching inside the selection loop takes one unit of the quota in the same iteration. A peer controls how many hashes are
+    # queued and whether fetches fail, so a transition that skips the decrement is a peer-triggered abort (debug) / unlimited fetch (release).
+    SS = CORE + "consensus::blockchain_sync_state::BlockchainSyncState::get_blocks_to_fetch_per_peer"
+    ssb = prog.body(SS)
+    if ssb is None:
+        raise LookupError("BlockchainSyncState::get_blocks_to_fetch_per_peer not found")
+    F8 = {bb for bb, blk in enumerate(ssb.blocks) for st in blk["s"]
+          if st[0] == "=" and st[2][0] == "agg" and st[2][1][0] == "adt" and st[2][1][1].endswith("blockchain_sync_state::BlockStatus") and st[2][1][2] == "Fetching"}
+    quota_locals = {st[1][0] for blk in ssb.blocks for st in blk["s"] if st[0] == "=" and not st[1][1] and (ssb.name_of(st[1][0]) or "").endswith("quota")}
+    D8 = set()
+    for bb, blk in enumerate(ssb.blocks):
+        for st in blk["s"]:
+            if st[0] == "=" and not st[1][1] and st[1][0] in quota_locals and ssb.innermost_loop_containing([bb]) is not None:
+                D8.add(bb)
+    if not F8 or not D8:
+        res.instance(R8)
+        res.not_decided.append("C11.fetch-quota: the Fetching transition / quota counter of get_blocks_to_fetch_per_peer was not recognised")
+    for f8 in sorted(F8):
+        res.instance(R8)
+        H8 = ssb.innermost_loop_containing([f8])
+        if H8 is None:
+            continue
+        loop8 = ssb.natural_loop(H8)
+        ok8 = any(ssb.dominates(d, f8) and ssb.dominates(H8, d) and d in loop8 for d in D8)
+        if not ok8:
+            outside8 = {x for x in range(len(ssb.blocks)) if x not in loop8}
+            r8 = set()
+            for n8 in ssb.succ(f8):
+                if n8 in D8:
+                    continue
+                r8 |= ssb.reachable(n8, blocked=D8 | outside8 | {H8}) | {n8}
+            ok8 = not any(H8 in ssb.succ(x) for x in r8 if x in loop8)
+        if ok8:
+            res.sample({"rule": R8, "transition": ssb.loc(f8), "verdict": "takes one unit of the quota in the same iteration"})
+        else:
+            res.add(Finding(R8, "C11.fetch-quota|free-transition", "get_blocks_to_fetch_per_peer moves an entry to Fetching without taking a unit of the per-peer quota in that iteration: a peer "
+                            "whose fetches fail while more hashes are queued gets more than batch_size requests in flight, and the next round's `batch_size - fetching_count` underflows "
+                            "(abort in a debug build, no limit at all in a release build)", ssb.loc(f8)))
     # a handler that waits for a lock in an inverted order never returns: lock-order findings inside handler-reachable bodies
     from ._include import include
     live_plain = {q.replace("::{closure#0}", "") for q in live}
